@@ -241,6 +241,9 @@ def _is_permutation(lib, ref):
     return True
 
 
+STRICT_SHAPE_TYPES = ("MProcess", "StateEnsemble")     # compositions ending in a POVM report one flat axis on the unchanged tree (counted, not judged)
+
+
 def compare(ls, rs, out=None):
     """list of (what, detail): violations of the property visible in the library result ls vs the reference rs"""
     probs = []
@@ -256,6 +259,9 @@ def compare(ls, rs, out=None):
             probs.append(("shape-product", "reported shape %r does not multiply to the length %d" % (shp, n_lib)))
         elif len(shp) == len(rs["shape"]) and shp != tuple(rs["shape"]):
             probs.append(("shape-order", "reported shape %r lists one entry per measurement but the time order is %r" % (
+                shp, tuple(rs["shape"]))))
+        elif len(shp) != len(rs["shape"]) and ls["type"] in STRICT_SHAPE_TYPES:
+            probs.append(("shape-axes-lost", "reported shape %r, the chain contains measurements with outcome counts %r (one axis each)" % (
                 shp, tuple(rs["shape"]))))
     if rs["ps"] is not None:
         lp, rp = ls["ps"], rs["ps"]
@@ -950,6 +956,20 @@ def ex_genmp(p, seed):
             if not _close(lp, born):
                 good = False
                 rep.fail("%s:born-rule:%s" % (sig0, pclass), "%s: ps %s, Born rule of the POVM %s" % (where, lp, born))
+            if mode == 2:
+                # documented back-action of mode 2: outcome x leaves the system in the state supplied for x (the same Povm object
+                # has been asked for other post-measurement states before - the answer must follow THIS call's argument)
+                for x in range(m):
+                    if born[x] < 1e-6:
+                        continue
+                    want = A.rho_of(cx.q("state", post[0] if label == "mode2-single" else post[x]))
+                    got = A.rho_of(ens.states[x])
+                    out.count("genmp_mode2_post_states_checked")
+                    if np.abs(got - want).max() > 1e-9:
+                        good = False
+                        rep.fail("%s:documented-back-action:post-state-is-not-the-supplied-state:%s" % (sig0, pclass),
+                                 "%s: outcome %d leaves a state %.3g away from the state supplied for it" % (where, x, np.abs(got - want).max()))
+                        break
             u = unphysical(cx, ens)
             if u:
                 good = False
@@ -979,7 +999,7 @@ def guards(summary):
     for k in ("result:state", "result:ens", "result:gate", "result:mproc", "result:povm", "result:dist",
               "mm_unequal_counts", "noncommuting_neighbours", "zero_prob_outcomes", "trees_n4", "nary_ok",
               "physical_results", "to_povm_ok", "induced_povm_consistent",
-              "genmp_mode0", "genmp_mode1", "genmp_mode2-single", "genmp_mode2-list", "genmp_ok_mode0", "genmp_ok_mode2",
+              "genmp_mode0", "genmp_mode1", "genmp_mode2-single", "genmp_mode2-list", "genmp_ok_mode0", "genmp_ok_mode2", "genmp_mode2_post_states_checked",
               "povm_outcomes_2", "povm_outcomes_3", "povm_outcomes_4", "povm_class_rank1", "povm_class_generic",
               "povm_class_projective", "povm_class_withzero"):
         if info.get(k, 0) < 1:
